@@ -25,6 +25,9 @@ import traceback
 
 from . import VERIF
 
+# sensitivity runs against scratch copies write their evidence and replay files elsewhere (tools/seedcheck.sh)
+OUT = os.environ.get("VERIF_OUT", VERIF)
+
 PY = sys.executable
 DEFAULT_SEED = 20260923
 EXIT_OK, EXIT_VIOLATION, EXIT_HARNESS = 0, 1, 2
@@ -364,7 +367,7 @@ def check_main(args) -> int:
     replays = []
     if unknown:
         rc = EXIT_VIOLATION
-        os.makedirs(os.path.join(VERIF, "replays"), exist_ok=True)
+        os.makedirs(os.path.join(OUT, "replays"), exist_ok=True)
         todo = sorted(unknown.items(), key=lambda kv: -kv[1]["count"])[: conf.get("max_shrink", 4)]
         with concurrent.futures.ThreadPoolExecutor(max_workers=min(len(todo), workers)) as pool:
             futs = {pool.submit(_shrink_one, prop, key, info, conf): key for key, info in todo}
@@ -401,9 +404,9 @@ def _shrink_one(prop: str, key: str, info: dict, conf: dict) -> dict:
     seed = info["seed"]
     scn["expect"] = {"class": viol["class"], "sig": viol.get("sig", {})}
     tag = hashlib.sha256(key.encode()).hexdigest()[:6]
-    os.makedirs(os.path.join(VERIF, "replays"), exist_ok=True)
-    raw_path = os.path.join(VERIF, "replays", f"{prop}-{seed}-{tag}.raw.json")
-    out_path = os.path.join(VERIF, "replays", f"{prop}-{seed}-{tag}.json")
+    os.makedirs(os.path.join(OUT, "replays"), exist_ok=True)
+    raw_path = os.path.join(OUT, "replays", f"{prop}-{seed}-{tag}.raw.json")
+    out_path = os.path.join(OUT, "replays", f"{prop}-{seed}-{tag}.json")
     with open(raw_path, "w", encoding="utf-8") as fdesc:
         json.dump(scn, fdesc, sort_keys=True, default=repr)
     env = dict(os.environ, PYTHONHASHSEED=str(scn.get("hashseed", 0)))
@@ -434,7 +437,7 @@ def _shrink_one(prop: str, key: str, info: dict, conf: dict) -> dict:
         os.remove(raw_path)
     except OSError:
         pass
-    rel = os.path.relpath(out_path, VERIF)
+    rel = os.path.relpath(out_path, VERIF) if OUT == VERIF else out_path
     return {"key": key, "path": rel, "class": viol["class"], "sig": canon(viol.get("sig", {})),
             "count": info["count"], "seed": seed, "shrunk": shrunk, "reproduced": reproduced}
 
@@ -520,8 +523,8 @@ def write_evidence(prop, tier, base_seed, mod, lines, results, wall, unknown, kn
         "wall_s": round(wall, 2),
         "violations": len(unknown),
     }
-    os.makedirs(os.path.join(VERIF, "evidence"), exist_ok=True)
-    path = os.path.join(VERIF, "evidence", f"{prop}.json")
+    os.makedirs(os.path.join(OUT, "evidence"), exist_ok=True)
+    path = os.path.join(OUT, "evidence", f"{prop}.json")
     with open(path, "w", encoding="utf-8") as fdesc:
         json.dump(evidence, fdesc, indent=1, sort_keys=True, default=repr)
 
